@@ -177,6 +177,18 @@ func TestVF_C18_Paths(t *testing.T) {
 			st.Case(vfshared.Fingerprint(c), true, "all_paths_at_once")
 		}
 	}
+	// the roots that could be repaired on the pinned tree must still be supported (a root silently dropped from a
+	// conversion table would otherwise just disappear from this enumeration)
+	have := map[string]bool{}
+	for _, r := range roots {
+		have[r.Name] = true
+	}
+	for _, name := range c18PinnedRoots {
+		if !have[name] {
+			c := c18Case{Root: name, Depth: 1, Bad: c18Hex("\xff")}
+			c18Fail(t, st, part, c, fmt.Errorf("%s can no longer be down-converted to the legacy schema: invalid UTF-8 in its failure messages is no longer repaired", name))
+		}
+	}
 	st.Extra("roots_reaching_a_failure", withFailure)
 	st.Extra("root_path_pairs", pairs)
 	done := true
